@@ -15,7 +15,8 @@ like a single call: the model answers for each call on its own (`call_outcome_in
              the VAR_POSITIONAL parameter (absent: `args`); tup = id of the tuple object bind_partial builds from the surplus positionals,
              which the repaired code never hands on as a value)
    strict, ignore, req ("none" | "notjson" | [json keys]), async, mode, args [ids] (incl. the instance for methods), kw [[name, id]]
- 'x' (only the Python side): method, per-parameter kind / value_type / raw source value, literal values {id: repr}.
+             (a method whose receiver is passed BY KEYWORD - `K.f(self=obj, ...)` on the class - has the instance in kw instead: x.recvKw)
+ 'x' (only the Python side): method, recvKw, per-parameter kind / value_type / raw source value, literal values {id: repr}.
 Names are small ints (index into NAMES); values are ints: None = null, 1..7 the falsy literals, 90 the instance,
 100.. caller / default / source values, everything a recording validator produces is id*8+k (so a value's id spells
 the exact sequence of validators it went through).
@@ -233,7 +234,9 @@ def label_validators(rng, params, prob=0.3):
 
 def assemble(b, sig, params, strict, ignore, mode, is_async, args, kw, req='none', origin=None, flask=None):
     """sig = {'method', 'pos': [(name, dflt)], 'varArgs', 'kwOnly': [(name, dflt)]};
-    params = [{'name', 'kind', 'required', 'dflt', 'ext', 'vt', 'vals', 'raw'}]; args/kw = ids (without the instance)."""
+    params = [{'name', 'kind', 'required', 'dflt', 'ext', 'vt', 'vals', 'raw'}]; args/kw = ids (without the instance).
+    A method whose kw carries ('self', SELF_ID) is called on the CLASS with the receiver passed by keyword."""
+    recv_kw = bool(sig['method']) and any(n == 'self' and v == SELF_ID for n, v in kw)
     all_inputs = set(i for i in args if i is not None) | set(v for _, v in kw if v is not None)
     if sig['method']:
         all_inputs.add(SELF_ID)
@@ -259,9 +262,11 @@ def assemble(b, sig, params, strict, ignore, mode, is_async, args, kw, req='none
     c = {'ps': cps,
          'sig': csig,
          'strict': strict, 'ignore': ignore, 'req': req, 'async': is_async, 'mode': mode,
-         'args': ([SELF_ID] if sig['method'] else []) + list(args), 'kw': [[NID[n], v] for n, v in kw]}
+         'args': ([SELF_ID] if sig['method'] and not recv_kw else []) + list(args), 'kw': [[NID[n], v] for n, v in kw]}
     x = {'method': sig['method'], 'ps': [{'kind': p['kind'], 'vt': p['vt'], 'raw': p.get('raw')} for p in params],
          'lits': {str(i): r for i, r in b.lits.items()}}
+    if recv_kw:
+        x['recvKw'] = True
     if origin:
         x['origin'] = origin
     if flask is not None:
@@ -300,7 +305,8 @@ def gen_program(rng, b, allow_varargs, n=None):
     varargs = allow_varargs and rng.random() < 0.3
     var_name = rng.choice(['args', 'args', 'rest']) if varargs else 'args'
     if rng.random() < 0.3:
-        # ordinary parameters called `args`, `kwargs`, `cls`, `self` (the latter never first: that would be a receiver)
+        # ordinary parameters called `args`, `kwargs`, `cls`, `self` (the latter never first: that would be a receiver - a plain
+        # function whose first parameter is called self is what `method` generates, as a real method)
         for i in rng.sample(range(n), rng.choice([1, 1, 2]) if n > 1 else 1):
             nm = rng.choice(SPECIAL_NAMES)
             if nm in names or (nm == 'self' and (method or i == 0)) or (nm == 'args' and varargs and var_name == 'args'):
@@ -361,7 +367,7 @@ def gen_program(rng, b, allow_varargs, n=None):
     return sig, params, rng.random() < 0.6, rng.random() < 0.1, rng.choice(MODES), is_async
 
 
-def gen_call(rng, b, sig, params, allow_surplus=True):
+def gen_call(rng, b, sig, params, allow_surplus=True, allow_recv_kw=False):
     vt_of = {}
     for p in params:
         vt_of[p['name']] = p['vt']       # the last declaration wins, as in parameter_dict
@@ -369,6 +375,10 @@ def gen_call(rng, b, sig, params, allow_surplus=True):
     kwo_names = [n for n, _ in sig['kwOnly']]
     k = rng.choice([0, 0, 1, 2, len(pos_names), len(pos_names)])
     k = min(k, len(pos_names))
+    # a method called on the class with the receiver passed by keyword: `K.f(self=obj, a=..., b=...)` (then nothing is positional)
+    recv_kw = allow_recv_kw and sig['method'] and not sig['varArgs'] and rng.random() < 0.08
+    if recv_kw:
+        k = 0
     args = [pick_value(rng, b, vt_of.get(nm)) for nm in pos_names[:k]]
     if sig['varArgs'] and k == len(pos_names) and rng.random() < 0.7:
         for _ in range(rng.choice([1, 1, 2, 3])):
@@ -384,8 +394,12 @@ def gen_call(rng, b, sig, params, allow_surplus=True):
     if allow_surplus and k > 0 and rng.random() < 0.05:
         nm = rng.choice(pos_names[:k])
         kw.append((nm, pick_value(rng, b, vt_of.get(nm))))
-    if allow_surplus and rng.random() < 0.03 and all(n != 'self' for n, _ in kw):
-        kw.append(('self', b.obj()))                             # a keyword called `self` (see self_is_receiver)
+    if recv_kw:
+        kw.append(('self', SELF_ID))
+    elif allow_surplus and rng.random() < 0.04 and all(n != 'self' for n, _ in kw):
+        # a keyword called `self`: on a plain function an undeclared keyword like every other (the function has no receiver),
+        # on a method a second value for the receiver
+        kw.append(('self', b.obj()))
     if args and rng.random() < 0.05:
         args[rng.randrange(len(args))] = rng.choice(args)        # the same object twice
     rng.shuffle(kw)
@@ -432,7 +446,7 @@ def random_cases(rng, count, allow_varargs, calls_per_program=3, origin='random'
             b.lits, b.rl, b.next = dict(b0.lits), dict(b0.rl), b0.next
             sig, params, strict, ignore, mode, is_async = prog
             params = [dict(p, vals=[dict(s, rej=set(), crash=set()) for s in p['vals']]) for p in params]
-            args, kw = gen_call(rng, b, sig, params)
+            args, kw = gen_call(rng, b, sig, params, allow_recv_kw=True)
             r = rng.random()
             if r < 0.3:
                 place_rejection(rng, b, sig, params, args, kw, 'rej')
@@ -705,14 +719,17 @@ def run_single(L, mod, shapes, case):
     if x['method']:
         ctx.inst = made()
         ctx.reg[SELF_ID] = ctx.inst
-        fn = ctx.inst.f
-        args = args[1:]
+        if x.get('recvKw'):
+            fn = made.f                 # the function on the class: the receiver arrives by keyword
+        else:
+            fn = ctx.inst.f
+            args = args[1:]
     else:
         fn = made
     a = [ctx.value(i) for i in args]
     k = {NAMES[n]: ctx.value(v) for n, v in c['kw']}
     if 'tup' in sig:
-        ctx.tup = (sig['tup'], list(args[len(sig['pos']) - (1 if x['method'] else 0):]))
+        ctx.tup = (sig['tup'], list(args[len(sig['pos']) - (1 if x['method'] and not x.get('recvKw') else 0):]))
     o, ret_ok = L.call_and_classify(ctx, c, fn, a, k, rec, x.get('flask'))
     return L.observed(ctx, o, ret_ok, rec)
 
@@ -969,14 +986,12 @@ def distinct_parameters(c):
     return len(set(names)) == len(names)
 
 
-def self_is_receiver(c):
-    """hypothesis `SelfIsReceiver` of the Lean theorem: `self` is the first positional parameter of a method, or does not
-    occur at all (no keyword, Parameter or parameter is called self).  Outside it (a surplus keyword `self` on a plain
-    function is popped and passed positionally) only the correspondence is checked; such cases are counted as an edge."""
-    posn = [s['name'] for s in c['sig']['pos']]
-    if posn[:1] == [0]:
-        return True
-    return all(k != 0 for k, _ in c['kw']) and all(p['name'] != 0 for p in c['ps']) and 0 not in posn
+def receiver_of(c):
+    """the receiver of the decorated function, from the property text: the name of the FIRST parameter of its signature if that
+    name is `self` (a method) - else the function has none, whatever else is called self"""
+    sg = c['sig']
+    names = [s_['name'] for s_ in sg['pos']] + ([sg.get('varName', 1)] if sg['varArgs'] else []) + [s_['name'] for s_ in sg['kwOnly']]
+    return 0 if names[:1] == [0] else None
 
 
 def is_clean_call(c):
@@ -1000,7 +1015,7 @@ def is_clean_call(c):
 def pfail_byname(case, impl, model):
     """P_C13, decided with spec.byName (functions without *args only)"""
     c = case['c']
-    if c['sig']['varArgs'] or not distinct_parameters(c) or not self_is_receiver(c):
+    if c['sig']['varArgs'] or not distinct_parameters(c):
         return None         # outside the property's quantifier: only the correspondence is checked
     s = model['spec']['byName']
     ran = impl['binding'] is not None
@@ -1045,21 +1060,12 @@ def pfail_gate(case, impl, model):
         if c['mode'] == 'KWARGS_WITHOUT_NONE':
             res = {k: v for k, v in res.items() if v is not None}
         dfl = sig_defaults(c)
-        declared = set(p['name'] for p in c['ps'])
-        receiver_ok = self_is_receiver(c)
+        # by name, for every parameter - whatever the parameters and the keywords of the call are called (`self` included: the
+        # region of the repaired finding `selfKeywordBypassesGate` is an ordinary failure)
         for n, v in impl['binding']['named']:
             want = res[n] if n in res else dfl.get(n, '?')
             if v != want:
-                if receiver_ok:
-                    return f'the body saw {v} for {NAMES[n]}; the chain output / default is {want}'
-                if n in declared:
-                    # region of the finding `selfKeywordBypassesGate`: a keyword `self` on a plain function is handed over positionally
-                    return ('FINDING:selfKeywordBypassesGate', f'the body saw {v} for the declared parameter {NAMES[n]} (chain output / default: {want}): '
-                                       f'the value of the surplus keyword `self` was handed over positionally')
-        if not receiver_ok:
-            for n, v in impl['binding']['named']:
-                if v not in sp['allowed']:
-                    return f'the body saw {v} for {NAMES[n]}, which is no chain output, default or undeclared pass-through'
+                return f'the body saw {v} for {NAMES[n]}; the chain output / default is {want}'
         return None
     # *args functions: the gate predicate proper
     if not distinct_parameters(c):
@@ -1088,15 +1094,6 @@ def pfail_gate(case, impl, model):
     return None
 
 
-def self_keyword_edge(case, impl, model):
-    """report-only edge: the body ran with a binding that is not the by-name one because a keyword `self` was passed to a plain function"""
-    c = case['c']
-    if self_is_receiver(c) or c['sig']['varArgs'] or impl['binding'] is None:
-        return False
-    s = model['spec']['byName']
-    return 'ok' not in s or impl['binding']['named'] != sorted(s['ok'])
-
-
 def extra_coverage(results):
     flat, scn = [], {'scenarios': 0, 'calls_executed': 0, 'inner_calls_executed': 0, 'scenarios_with_two_function_objects': 0,
                      'max_nesting_depth': 0, 'calls_on_a_function_object_that_was_called_before': 0}
@@ -1121,7 +1118,6 @@ def extra_coverage(results):
         else:
             flat.append((c, i, m, j))
     results = flat
-    n = sum(1 for (c, i, m, j) in results if self_keyword_edge(c, i, m))
     branches = {}
     feat = {}
 
@@ -1149,6 +1145,11 @@ def extra_coverage(results):
             for s_ in cc['sig']['pos'][(1 if c['x']['method'] else 0):] + cc['sig']['kwOnly']:
                 if s_['name'] in (0, 1, 8, 9):
                     hit('ordinary parameter named ' + NAMES[s_['name']])
+            if c['x'].get('recvKw'):
+                hit('method: the receiver passed by keyword (K.f(self=obj, ...))' + (' under strict' if cc['strict'] else ''))
+            elif any(k == 0 for k, _ in cc['kw']):
+                hit('keyword called self on a ' + ('method (a second value for the receiver)' if c['x']['method'] else
+                                                    ('plain function' if receiver_of(cc) is None else 'function with a receiver')))
             if not cc['sig']['varArgs'] and len(cc['args']) > npos:
                 hit('positional loop: bind_partial TypeError')
             if any(s['name'] not in declared and s['name'] != 0 for s in cc['sig']['pos'][:len(cc['args'])]):
@@ -1174,9 +1175,7 @@ def extra_coverage(results):
                             hit('rejection: nested validate_param delegations')
         if cc['req'] != 'none':
             hit('flask request context: ' + ('json' if isinstance(cc['req'], list) else 'not json'))
-    return {'cases_by_generator': branches, 'features_hit': dict(sorted(feat.items())), 'scenarios': scn,
-            'report_only_edge_self_keyword_on_plain_function': {'cases_where_body_saw_non_by_name_binding': n,
-                                                                'note': 'impl == model there; excluded from the theorem by the hypothesis SelfIsReceiver'}}
+    return {'cases_by_generator': branches, 'features_hit': dict(sorted(feat.items())), 'scenarios': scn}
 
 
 def nontrivial(case, impl):
@@ -1454,6 +1453,83 @@ def names_enum(rng):
                         else:
                             args, kw = list(vals) + [b.obj()], []
                         out.append(assemble(b, sig, params, strict, False, mode, ctr % 4 == 1, args, kw, origin='names_enum'))
+    return out
+
+
+def receiver_enum(rng):
+    """the RECEIVER is recognised by the signature, not by the key: (1) plain functions `def f(a=D)` / `def f(x=D, a=D)` / `def f(a, b=D)`
+    called with a keyword `self` (the value rejected by the chain of `a` - it must never reach the body) next to None / a value / nothing
+    for the declared parameter; (2) an ordinary parameter called self in a non-first position, declared or not, positional / keyword /
+    mixed; (3) real methods `def f(self, a, b=D)` with the receiver positional (call on the instance) or by keyword (call on the class),
+    a Parameter declared for `self` or not, a second value for `self`;  each x strict x mode x sync / async"""
+    out = []
+    mk = lambda nm, **kw: dict({'name': nm, 'kind': 'plain', 'required': False, 'dflt': NOV, 'ext': NOV, 'vt': None,
+                                'vals': [{'rej': set(), 'crash': set(), 'map': 'mul', 'k': 1}], 'raw': None}, **kw)
+    for strict in (False, True):
+        for mode in MODES:
+            for is_async in (False, True):
+                # (1) plain functions
+                for shape in ('a', 'xa', 'ab'):
+                    for call in ('none_self', 'self', 'kw_self', 'pos_self', 'self_first'):
+                        for rejects in (True, False):
+                            b = Builder()
+                            X = b.obj()
+                            if shape == 'a':
+                                sig = {'method': False, 'pos': [('a', b.obj())], 'varArgs': False, 'kwOnly': []}
+                            elif shape == 'xa':
+                                sig = {'method': False, 'pos': [('x', b.obj()), ('a', b.obj())], 'varArgs': False, 'kwOnly': []}
+                            else:
+                                sig = {'method': False, 'pos': [('a', NOV), ('b', b.obj())], 'varArgs': False, 'kwOnly': []}
+                            params = [mk('a')] + ([mk('b')] if shape == 'ab' else [])
+                            if rejects:
+                                params[0]['vals'][0]['rej'].add(X)        # the chain of `a` would reject the value of the keyword
+                            v = b.obj()
+                            if call == 'none_self':
+                                args, kw = ([None] if shape != 'xa' else []), [('self', X)] + ([('a', None)] if shape == 'xa' else [])
+                            elif call == 'self':
+                                args, kw = [], [('self', X)]
+                            elif call == 'kw_self':
+                                args, kw = [], [('a', v), ('self', X)]
+                            elif call == 'pos_self':
+                                args, kw = [v], [('self', X)]
+                            else:
+                                args, kw = [], [('self', X), ('a', v)]
+                            out.append(assemble(b, sig, params, strict, False, mode, is_async, args, kw, origin='receiver_enum'))
+                # (2) an ordinary parameter called self, not the first one
+                for declared in (False, True):
+                    for dflt in (False, True):
+                        for route in ('pos', 'kw', 'mixed', 'omitted'):
+                            if route == 'omitted' and not dflt:
+                                continue
+                            b = Builder()
+                            sig = {'method': False, 'pos': [('a', NOV), ('self', b.obj() if dflt else NOV)], 'varArgs': False, 'kwOnly': []}
+                            params = [mk('a', required=True)] + ([mk('self')] if declared else [])
+                            if len(out) % 2:
+                                params.reverse()
+                            v, w = b.obj(), b.obj()
+                            args, kw = {'pos': ([v, w], []), 'kw': ([], [('self', w), ('a', v)]), 'mixed': ([v], [('self', w)]),
+                                        'omitted': ([v], [])}[route]
+                            out.append(assemble(b, sig, params, strict, False, mode, is_async, args, kw, origin='receiver_enum'))
+                # (3) real methods
+                for declared in (False, True):
+                    for recv in ('instance', 'keyword_first', 'keyword_last', 'twice'):
+                        for route in ('pos', 'kw', 'mixed'):
+                            if recv in ('keyword_first', 'keyword_last') and route != 'kw':
+                                continue
+                            b = Builder()
+                            sig = {'method': True, 'pos': [('a', NOV), ('b', b.obj())], 'varArgs': False, 'kwOnly': []}
+                            params = [mk('a', required=True), mk('b')] + ([mk('self')] if declared else [])
+                            if len(out) % 2:
+                                params.reverse()
+                            v, w = b.obj(), b.obj()
+                            args, kw = {'pos': ([v, w], []), 'kw': ([], [('b', w), ('a', v)]), 'mixed': ([v], [('b', w)])}[route]
+                            if recv == 'keyword_first':
+                                kw = [('self', SELF_ID)] + kw
+                            elif recv == 'keyword_last':
+                                kw = kw + [('self', SELF_ID)]
+                            elif recv == 'twice':
+                                kw = kw + [('self', b.obj())]
+                            out.append(assemble(b, sig, params, strict, False, mode, is_async, args, kw, origin='receiver_enum'))
     return out
 
 
